@@ -109,11 +109,20 @@ theorem checkFns_spec {env : Env} {file : AFile} {G : List String} : ∀ (l : Li
 
 theorem compileFn_name (env : Env) (st : St) (g : AFn) : (compileFn env st g).1.name = fnName g.name := rfl
 
+mutual
 theorem valTyS_noParam {S E : List String} : ∀ {t : Ty}, valTyS S E t = true → tyContainsTypeParam t = false
   | .ref e, h => by simp only [valTyS] at h; simp only [tyContainsTypeParam]; exact valTyS_noParam h
+  | .tuple ts, h => by simp only [valTyS] at h; simp only [tyContainsTypeParam]; exact valTysS_noParam h
   | .unit, _ | .bool, _ | .string, _ | .int _ _, _ | .struct _, _ | .enum _, _ => by simp [tyContainsTypeParam]
-  | .float _, h | .tuple _, h | .dyn _, h | .app _ _, h | .array _ _, h | .vec _, h | .param _, h | .func _ _, h
+  | .float _, h | .dyn _, h | .app _ _, h | .array _ _, h | .vec _, h | .param _, h | .func _ _, h
   | .tvar _, h => by simp [valTyS, scalarTy] at h
+theorem valTysS_noParam {S E : List String} : ∀ {ts : List Ty}, valTysS S E ts = true → tysContainTypeParam ts = false
+  | [], _ => by simp [tysContainTypeParam]
+  | t :: ts, h => by
+    simp only [valTysS, Bool.and_eq_true] at h
+    simp only [tysContainTypeParam, Bool.or_eq_false_iff]
+    exact ⟨valTyS_noParam h.1, valTysS_noParam h.2⟩
+end
 
 /-- the helpers `make_ref_runtime` emits for a collected reference type -/
 theorem refRuntime_mem : ∀ (refs : List Ty) (e : Ty), Ty.ref e ∈ refs → tyContainsTypeParam e = false →
@@ -129,16 +138,23 @@ theorem refRuntime_mem : ∀ (refs : List Ty) (e : Ty), Ty.ref e ∈ refs → ty
     · obtain ⟨h1, h2, h3⟩ := refRuntime_mem rest e h hp
       exact ⟨List.mem_append_right _ h1, List.mem_append_right _ h2, List.mem_append_right _ h3⟩
 
+/-- part of `closedOK`: the Go function names of the emitted file are pairwise distinct -/
+theorem closed_funcs_nodup {env : Env} {file : AFile} {n : Nat} {G : List String} (h : closedOK env file n G = true) :
+    ((goFilePreSt env file n).1.funcs.map (·.name)).Nodup := by
+  simp only [closedOK, fileOK, Bool.and_eq_true] at h
+  obtain ⟨⟨⟨⟨⟨⟨⟨⟨⟨hndF, _⟩, _⟩, _⟩, _⟩, _⟩, _⟩, _⟩, _⟩, _⟩ := h
+  exact of_decide_eq_true hndF
+
 /-- the decidable check establishes everything the induction needs about the two programs -/
 theorem link_of_closed {env : Env} {file : AFile} {n : Nat} {G : List String} (h : closedOK env file n G = true)
     {P : Prog} (hP : P.fns = file.map AFn.toFn) : Link env file G P (goFilePreSt env file n).1 := by
   simp only [closedOK, fileOK, Bool.and_eq_true] at h
-  obtain ⟨⟨⟨⟨⟨⟨⟨⟨hndF, hndS⟩, hnb⟩, hres⟩, hstr⟩, htab⟩, hetab⟩, hrtab⟩, hchk⟩ := h
+  obtain ⟨⟨⟨⟨⟨⟨⟨⟨⟨hndF, hndS⟩, hnb⟩, hres⟩, hstr⟩, htab⟩, hetab⟩, hrtab⟩, httab⟩, hchk⟩ := h
   have hndF := of_decide_eq_true hndF
   have hndS := of_decide_eq_true hndS
   have hfuncs := funcs_goFilePre env file n
   refine ⟨⟨fun b g hb => ?_, fun r hr => ?_⟩, fun g hg _ => findFn_progOf hP hndS hg, fun g hg hG => ?_, fun b hb => ?_,
-    fun b hb => ?_, fun e he => ?_,
+    fun b hb => ?_, fun e he => ?_, fun ts hts => ?_,
     ⟨hstr, fun n hn => List.all_eq_true.mp htab n hn, fun n hn => List.all_eq_true.mp hetab n hn⟩⟩
   · simp only [GFile.findFunc] at hb ⊢
     rw [hfuncs, List.find?_append, hb]; rfl
@@ -190,5 +206,16 @@ theorem link_of_closed {env : Env} {file : AFile} {n : Nat} {G : List String} (h
     cases hd : (goFilePreSt env file n).1.structFields (refStructName e) with
     | none => rw [hd] at htb; cases htb
     | some decl => rw [hd] at htb; exact ⟨decl, rfl, by simpa using htb⟩
+  · -- the struct of a tuple type the file mentions
+    simp only [tupleTyOK, Bool.and_eq_true, List.any_eq_true] at hts
+    obtain ⟨hval, x, hx, hbeq⟩ := hts
+    have hxe : x = .tuple ts := ((Goml.Mono.tyBeq_iff _ _).mp hbeq).symm
+    subst hxe
+    have htb := List.all_eq_true.mp httab _ hx
+    simp only [tupleTableOK, hval, Bool.not_true, Bool.false_or, Bool.and_eq_true] at htb
+    refine ⟨of_decide_eq_true htb.1, ?_⟩
+    cases hd : (goFilePreSt env file n).1.structFields (goTypeNameFor (.tuple ts)) with
+    | none => rw [hd] at htb; exact absurd htb.2 (by simp)
+    | some decl => rw [hd] at htb; exact ⟨decl, rfl, by simpa using htb.2⟩
 
 end Goml.GoComp
